@@ -10,6 +10,8 @@ pub mod child;
 #[cfg(futures_buffered_verif)]
 pub mod fub;
 #[cfg(futures_buffered_verif)]
+pub mod fo;
+#[cfg(futures_buffered_verif)]
 pub mod fob;
 #[cfg(futures_buffered_verif)]
 pub mod ad;
